@@ -1,0 +1,8 @@
+//go:build !verif
+// +build !verif
+
+package cache
+
+import "github.com/evanw/esbuild/internal/js_parser"
+
+func verifJSONOptions(o js_parser.JSONOptions) string { return "" }
